@@ -74,7 +74,7 @@ fn main() {
             // property of the form "maximize() / compile() returns ...": it is reported as a violation (class no-return)
             {
                 let shw = sh.clone();
-                let limit: f64 = if arm.starts_with("ex-") { 1e9 } else { get("--watchdog").and_then(|s| s.parse().ok()).unwrap_or(30.0) };
+                let limit: f64 = if arm.starts_with("ex-") { 1e9 } else { get("--watchdog").and_then(|s| s.parse().ok()).unwrap_or(60.0) };
                 std::thread::spawn(move || loop {
                     std::thread::sleep(std::time::Duration::from_millis(250));
                     let mut g = shw.lock().unwrap();
